@@ -697,6 +697,12 @@ class EndToEnd:
             if hasattr(FE, cn) and rng.random() < 0.35:
                 driver_errors.append(getattr(FE, cn)('driver says no'))
         for exc in driver_errors:
+            entry_ = client.cache[modname, name]
+            if entry_.readerror is not None or entry_.value is None:
+                # (a write refused by the driver leaves the cache entry alone: it still holds the last good value)
+                r.violation(f'C12/e2e/{via}/cache-entry-in-error-after-a-refused-write', f'{modname}:{name}: after a change request the driver refused the cache entry is '
+                            f'({entry_.value!r}, error {entry_.readerror!r})'[:250], case)
+                return False
             mod.fail.append(exc)
             try:
                 client.setParameter(modname, name, client.cache[modname, name].value)
